@@ -553,6 +553,7 @@ def plan_C15(ctx):
     e2_gen_api(ctx, n_of(ctx, 60, 1200))
     require_cov(ctx, "tag:api_merge_with_bitmap", "tag:api_prealloc", "tag:api_stats_add")
     run_family(ctx, "immut", n_of(ctx, 80, 1500), perfile=n_of(ctx, 8, 20))
+    run_family(ctx, "immut", n_of(ctx, 40, 600), perfile=10, seed_off=5, env_extra={"VERIF_INLINE": "1"})   # one goroutine: the scratch objects a merge hands back are the ones the next reads get
     run_family(ctx, "dv_merge_order", n_of(ctx, 8, 80), perfile=2)                  # inputs read again after merges (small before large)
     run_family(ctx, "fault_then_merge", n_of(ctx, 30, 500), perfile=10, seed_off=1)  # inputs read again after abandoned merges
     run_family(ctx, "iter_share", n_of(ctx, 40, 600), perfile=20, seed_off=3)        # caller bitmaps handed to iterators that are recycled later
